@@ -344,6 +344,15 @@ class Models:
     def to_str(self, interp, v, node):
         if isinstance(v, ExcVal):
             return str(v.args[0]) if len(v.args) == 1 else (str(tuple(v.args)) if v.args else '')
+        from .interp import Instance, FuncVal
+        if isinstance(v, Instance):
+            for meth in ('__str__', '__repr__'):
+                try:
+                    f = v.cls.lookup(meth)
+                except KeyError:
+                    continue
+                if isinstance(f, FuncVal):
+                    return interp.call_function(f, [v], {}, node)
         if isinstance(v, (str, int, bool, type(None), tuple, list, dict)):
             return str(v)
         if isinstance(v, Fr):
@@ -361,6 +370,13 @@ class Models:
     def enter_context(self, interp, v, node):
         if isinstance(v, ContextMgr):
             return v.value
+        from .interp import Instance
+        if isinstance(v, Instance):
+            try:
+                v.cls.lookup('__enter__'), v.cls.lookup('__exit__')
+            except KeyError:
+                raise AbsRaise(ExcVal('TypeError', (f"'{v.cls.name}' object does not support the context manager protocol",)), node)
+            raise AnalysisError('with-statement on an instance of a repository class (__enter__ / __exit__) not modelled', node)
         raise AnalysisError(f'with-statement on unmodelled context manager {v!r}', node)
 
     def dataclass_default(self, interp, dv, node):
